@@ -76,6 +76,18 @@ class G:
             return [pool() for _ in range(n)]
         # integers
         u = dt == "u8"
+        if dom in ("big", "big_nz"):
+            # magnitudes beyond what float32 (2^24) and, for int64, float64 (2^53) represent exactly, next to small values;
+            # an implementation that goes through a floating type is wrong here
+            if dt == "i64":
+                pool = [2**24 + 1, -(2**24 + 1), 2**24 + 3, 33554433, 2**31 + 5, 2**40 + 3, -(2**40 + 3), 2**53 + 1, -(2**53 + 1), 2**62 + 1, 7, -3, 1]
+            elif dt == "i32":
+                pool = [2**24 + 1, -(2**24 + 1), 2**24 + 3, 33554433, 2**30 + 1, 2**31 - 1, -(2**31 - 1), 7, -3, 1]
+            else:
+                pool = [1, 2, 3, 100, 127] if not u else [1, 2, 3, 200, 255]
+            if dom == "big":
+                pool = pool + [0]
+            return [r.choice(pool) for _ in range(n)]
         if dom in ("any", "unit", "special", "nonint"):
             lo, hi = (0, 9) if u else (-6, 6)
         elif dom in ("pos", "ge1"):
